@@ -244,6 +244,11 @@ impl<T: Config> SpectatorSession<T> {
             }
             // disconnect the player, then forward to user
             Event::Disconnected => {
+                // like P2PSession: stop the endpoint, so that nothing further is reported for the
+                // host once it has been declared disconnected (a host that only paused for longer
+                // than the timeout would otherwise produce NetworkResumed/NetworkInterrupted events
+                // after the Disconnected event)
+                self.host.disconnect();
                 self.event_queue.push_back(GgrsEvent::Disconnected { addr });
             }
             // add the input and all associated information
